@@ -84,7 +84,7 @@ func corrStorageRace(seed uint64, n int, tier string, out string, replay string)
 func init() { subs["racecheck"] = corrRaceCheck }
 
 // corrRaceCheck runs the storagerace sub-command of the race-detector build (../.build/corr-race,
-// built by the runner in the thorough tier) once per backend and mode and turns the detector's
+// built by the runner) once per backend and mode and turns the detector's
 // reports into issues.  Without that binary it records that the detector was not run.
 func corrRaceCheck(seed uint64, n int, tier string, out string, replay string) {
 	rep := NewReport("C09", "racecheck", seed, "case = one run of the storagerace workload (6 goroutines x 40 storage calls x n rounds) under the Go race detector per backend (memory, secrets, configmaps) and mode (own objects / modify-and-write-back as the actions do); every detector report is an issue; this is testing, not proof; non-trivial = the detector ran; distinct = backend x mode")
